@@ -462,8 +462,13 @@ macro_rules! impl_cache_processor {
                         Ok(())
                     }
                     $item::Delete { key, conflict } => {
-                        self.policy.remove(&key); // deals with metrics updates.
-                        if let Some(sitem) = self.store.try_remove(&key, conflict)? {
+                        let removed = self.store.try_remove(&key, conflict)?;
+                        // keep the charge while the store still holds this index
+                        // (an entry of another key colliding on the index).
+                        if self.store.expiration(&key).is_none() {
+                            self.policy.remove(&key); // deals with metrics updates.
+                        }
+                        if let Some(sitem) = removed {
                             self.callback.on_exit(Some(sitem.value.into_inner()));
                         }
 
